@@ -167,6 +167,15 @@ impl Initiator {
                 log::warn!("Got non-100 response without To-tag");
 
                 if code >= 300 {
+                    // Response is failure: terminate all early dialogs
+                    for (_, early) in self.early_list.drain(..) {
+                        if early.send(EarlyEvent::Terminate).await.is_err() {
+                            log::warn!(
+                                "failed to forward termination event, receiver of early dropped"
+                            );
+                        }
+                    }
+
                     return Ok(Response::Failure(response));
                 } else {
                     log::warn!("Cannot handle 1XX/2XX response without To-tag, ignoring");
